@@ -42,16 +42,35 @@ func norm(s string) string {
 	return strings.ToLower(strings.ReplaceAll(s, "_", ""))
 }
 
+// wordChars: only letters, digits and underscores (goa drops every other character,
+// the oracle then has no expectation of its own about the spelling).
+func wordChars(s string) bool {
+	alnum := false
+	for i := 0; i < len(s); i++ {
+		if !isLetter(s[i]) && !isDigit(s[i]) {
+			return false
+		}
+		if s[i] != '_' {
+			alnum = true
+		}
+	}
+	return alnum
+}
+
 // plainSnake: lower-case words of letters joined by single underscores. For such a
 // design name the proto field must be spelled exactly like the attribute (unless
 // it is a proto keyword, which goa suffixes with "_").
 func plainSnake(s string) bool {
-	if s == "" || s[0] == '_' || s[len(s)-1] == '_' || strings.Contains(s, "__") {
-		return false
-	}
-	for i := 0; i < len(s); i++ {
-		if !(s[i] >= 'a' && s[i] <= 'z' || s[i] == '_') {
+	// every word has at least two letters: goa merges one-letter words (f_a -> fa,
+	// x_y_z -> xyz) and the oracle claims nothing about those
+	for _, w := range strings.Split(s, "_") {
+		if len(w) < 2 {
 			return false
+		}
+		for i := 0; i < len(w); i++ {
+			if w[i] < 'a' || w[i] > 'z' {
+				return false
+			}
 		}
 	}
 	return true
@@ -144,7 +163,7 @@ func (o *oracle) checkCollectionField(coll *Ty, pf PField, where string) {
 		return
 	}
 	kprim, _, _ := o.resolve(coll.Key)
-	if kprim == "" || pf.Key != scalarOf[kprim] {
+	if kprim != "" && pf.Key != scalarOf[kprim] { // (a non-primitive key is reported by the key-type check)
 		o.add("map-key-differs-from-design", fmt.Sprintf("%s: designed key %v, file says %s", where, *coll.Key, pf.Key), nil)
 	}
 	o.checkType(coll.E, pf.Type, where+"{}")
@@ -212,7 +231,7 @@ func (o *oracle) checkMessage(name string, fs []Fld, sc *scope, where string) {
 	i := 0
 	one := func(f *Fld, pf PField, oneof string) {
 		w := fmt.Sprintf("%s.%s", name, pf.Name)
-		if norm(pf.Name) != norm(protoStrip(f.Name)) || (plainSnake(f.Name) && pf.Name != f.Name && pf.Name != f.Name+"_") {
+		if (wordChars(protoStrip(f.Name)) && norm(pf.Name) != norm(protoStrip(f.Name))) || (plainSnake(f.Name) && pf.Name != f.Name && pf.Name != f.Name+"_") {
 			o.add("field-name-differs-from-design", fmt.Sprintf("%s: attribute %q became field %q", w, f.Name, pf.Name), nil)
 		}
 		if n, ok := tagNumber(f); ok && n.Cmp(pf.Number) != 0 {
